@@ -417,6 +417,17 @@ func (cl *Client) ProduceSync(ctx context.Context, rs ...*Record) ProduceResults
 		if pd == nil {
 			continue
 		}
+		// Partition counts only grow, but a concurrent
+		// PurgeTopicsFromClient removes the topic outright: if that
+		// landed between our load above and Produce, the record sits
+		// in unknownTopics and the metadata goroutine partitions it
+		// (writing r.Partition) asynchronously. A purged and re-added
+		// topic gets fresh partition data, so only if the topic still
+		// has the data we loaded did Produce see it too and partition
+		// synchronously.
+		if now, ok := cl.producer.topics.load()[r.Topic]; !ok || now.load() != pd {
+			continue
+		}
 		if r.Partition < 0 || int(r.Partition) >= len(pd.partitions) {
 			continue
 		}
